@@ -573,3 +573,17 @@ def reach_setup(ns):
         r.watch(fn)
     r.start()
     return r
+
+
+def lattice_cases(part, parts, ell='grs80'):
+    """Deterministic 1 deg x 1 deg lattice (lat -80..84, lon -180..179) x three zone modes (automatic, the natural zone + 1,
+    the natural zone - 4: |lon - CM| up to ~27 deg), UTM.  Complements the random strata in the thorough tier."""
+    lats = list(range(-80, 85))
+    for lat in lats[part::parts]:
+        for lon in range(-180, 180):
+            nat = int((lon + 186.0) / 6.0)
+            for mode in (0, nat + 1, nat - 4):
+                if mode != 0 and not (1 <= mode <= 60):
+                    continue
+                yield {'mode': 'geo', 'ell': ell, 'prj': 'utm', 'lat': float(lat), 'lon': float(lon), 'zone': mode,
+                       'argt': 'float', 'api': 'geo2grid', 'kind': 'lattice'}
